@@ -34,7 +34,7 @@ class MDriver(object):
     def __init__(self, cfg):
         self.cfg = cfg
         self.sim = Sim(hold_time=cfg.get('hold', 180), idle_hold_time=cfg.get('idle_hold', 30),
-                       connect_retry_time=cfg['connect_retry'])
+                       connect_retry_time=cfg['connect_retry'], md5=cfg.get('md5'))
         self.sim.reactor.probe = lambda: self.sim.fsm.protocol
         # the connectionLost that follows the agent's own loseConnection is delivered by the harness
         # as an event of its own ('io'): Twisted only promises "a later reactor iteration"
@@ -125,6 +125,10 @@ class MDriver(object):
     # ---- invariants
     def _check(self, ev, tr, errors):
         for e in errors:
+            if len(self.cfg.get('md5') or '') > 80 and e[2] == 'OSError':
+                # a TCP-MD5 key the kernel refuses (EINVAL) makes connect() raise after the attempt was started: how the agent
+                # reports its own misconfiguration is not this property's subject, the connection invariants below are
+                continue
             self.failures.append(('escaped:%s@%s' % (e[2], e[3]), 'exception escaped %s during %r: %s' % (e[1], ev, e[4])))
         for t, kind, cid, payload in tr:
             if kind == 'connect-while-open':
@@ -282,8 +286,8 @@ def shards(tier):
         for i in range(n):
             if pf[i::n]:
                 out.append({'name': 'bfs-crt%d-%d' % (crt, i), 'kind': 'bfs', 'cfg': cfg, 'prefixes': pf[i::n], 'depth': depth})
-    for i in range(4 if tier == 'quick' else 16):
-        out.append({'name': 'walks-%d' % i, 'kind': 'walk', 'examples': 120 if tier == 'quick' else 6000,
+    for i in range(8 if tier == 'quick' else 16):
+        out.append({'name': 'walks-%d' % i, 'kind': 'walk', 'examples': 400 if tier == 'quick' else 6000,
                     'hypothesis': True, 'steps': 50 if tier == 'quick' else 90})
     return out
 
@@ -318,8 +322,9 @@ def run_shard(spec, seed, col, tier):
         for sig, detail in d.failures:
             col.fail(sig, explicit, detail)
     strat = st.fixed_dictionaries({
-        'cfg': st.sampled_from([{'connect_retry': c, 'hold': h, 'idle_hold': i}
-                                for c in (1, 5, 29, 30, 31, 60) for h, i in ((180, 30), (9, 5), (180, 0), (0, 30))]),
+        'cfg': st.sampled_from([{'connect_retry': c, 'hold': h, 'idle_hold': i, 'md5': m}
+                                for c in (1, 5, 29, 30, 31, 60) for h, i in ((180, 30), (9, 5), (180, 0), (0, 30))
+                                for m in (None, None, None, 'secret', 'k' * 81)]),
         'late_boot': st.sampled_from([False, False, False, True]),
         'choices': st.lists(st.integers(0, 999), min_size=spec['steps'] // 2, max_size=spec['steps'])})
     hyp_run(col, strat, body, seed, spec['examples'])
